@@ -1004,6 +1004,17 @@ class Normalizer:
             return P_atom(A("pow", wrap(self.nf(a[0])), wrap(self.nf(e))))
         if op == "sqrt":
             return p_pow(self.nf(a[0]), Fraction(1, 2))
+        if op == "T" and len(a) == 1 and isinstance(a[0], Term) and a[0].op == "loop" and len(a[0].args) == 4:
+            # a table filled row by row and transposed once at the end is the table filled column by column
+            L_, it_, init_, body_ = a[0].args
+            i0_ = init_
+            while isinstance(i0_, Term) and i0_.op == "astype" and i0_.args and isinstance(i0_.args[0], Term):
+                i0_ = i0_.args[0]
+            if isinstance(i0_, Term) and i0_.op in ("zeros", "empty") and len(i0_.args) == 2 and isinstance(body_, Term) and body_.op == "store" and len(body_.args) == 3 and isinstance(body_.args[0], Term) and body_.args[0].op == "head" and body_.args[0].args[0] == L_ and body_.args[1] == Term("lv", L_):
+                init2 = Term(i0_.op, i0_.args[1], i0_.args[0])
+                head2 = Term("head", L_, init2, *body_.args[0].args[2:])
+                full_ = Term("slice", Term("const", None), Term("const", None), Term("const", None))
+                return self.nf(Term("loop", L_, it_, init2, Term("store", head2, Term("tuple", full_, Term("lv", L_)), body_.args[2])))
         if op == "T" and len(a) == 1 and isinstance(a[0], Term):
             x_ = a[0]
             # (A[rows])^T = A^T[:, rows] for a row selection (mask / index vector)
